@@ -193,8 +193,14 @@ def script(draw, exclude=frozenset(), depth=3, max_pre=3, max_post=3, comments=5
     """-> laid-out lexemes: p plain statements, the CREATE statement, q plain statements, all ';'-terminated"""
     npre, npost = draw(st.integers(0, max_pre)), draw(st.integers(0, max_post))
     raw, pool = draw(G.predrawn_layout(comments))       # controls and layout first, the big structure last
+    # plain statements around the CREATE; one script in three is wrapped in a transaction (BEGIN; ... COMMIT;): the
+    # transaction BEGIN is a statement of its own and has no END
+    txn = draw(st.sampled_from([None, None, 'BEGIN', 'BEGIN TRANSACTION', 'START TRANSACTION']))
     pre = [draw(G.small_statement()) for _ in range(npre)]
     post = [draw(G.small_statement()) for _ in range(npost)]
+    if txn:
+        pre = [W('stmt', _w(txn), type='UNKNOWN')] + pre
+        post = post + [W('stmt', _w('COMMIT'), type='COMMIT')]
     cr = draw(create(depth, exclude))
     lex = []
     for s in pre + [cr] + post:
